@@ -86,10 +86,10 @@ func c14Gen(seed uint64, run int, tier string) *Case {
 }
 
 type c14File struct {
-	name  string
-	model []byte
-	hs    []*c14Handle // every open handle of the file
-	*c14Handle         // the one the current operation uses
+	name       string
+	model      []byte
+	hs         []*c14Handle // every open handle of the file
+	*c14Handle              // the one the current operation uses
 }
 
 type c14Handle struct {
